@@ -50,18 +50,36 @@ impl Case {
 fn gen_case(rng: &mut Rng, base: u64, long: bool) -> Case {
     let c = *rng.pick(&[0u32, 2, 3, 4, 5, 6]);
     let ceff = if c <= 1 { 3 } else { c as u64 };
+    // one case in five is a *slow ramp*: small threshold that is not a multiple of the cold factor, long
+    // warm-up period (the allowance grows by less than one token per second for a while), saturating demand
+    let slow_ramp = rng.chance(1, 5);
     let q = loop {
-        let q = *rng.pick(&[30u64, 40, 60, 64, 100, 101, 150, 250, 499, 500]);
-        if q >= 10 * ceff {
+        let q = if slow_ramp {
+            rng.range(30, 75)
+        } else if rng.chance(1, 3) {
+            rng.range(30, 500)
+        } else {
+            *rng.pick(&[30u64, 40, 60, 64, 100, 101, 150, 250, 499, 500])
+        };
+        if q >= 10 * ceff && (!slow_ramp || q % ceff != 0) {
             break q;
         }
+        if slow_ramp && ceff > 7 {
+            break 10 * ceff + 1;
+        }
     };
-    let p = if long { *rng.pick(&[1u32, 2, 3, 5, 8, 13, 20]) } else { *rng.pick(&[1u32, 2, 3, 5, 8]) };
-    let grid = *rng.pick(&[1u64, 2, 5, 10, 20, 7, 13]);
+    let p = if slow_ramp {
+        if long { *rng.pick(&[10u32, 13, 20]) } else { *rng.pick(&[8u32, 10, 13]) }
+    } else if long {
+        *rng.pick(&[1u32, 2, 3, 5, 8, 13, 20])
+    } else {
+        *rng.pick(&[1u32, 2, 3, 5, 8])
+    };
+    let grid = if slow_ramp { *rng.pick(&[10u64, 20, 13]) } else { *rng.pick(&[1u64, 2, 5, 10, 20, 7, 13]) };
     let pp = p as u64;
     let warm = 2 * pp + 2;
     let mut phases = vec![];
-    match rng.below(6) {
+    match if slow_ramp { 0 } else { rng.below(6) } {
         0 => phases.push(Phase::Saturate(warm + 3 + rng.below(5))),
         1 => {
             // on / off with a gap that must re-cool
